@@ -201,10 +201,55 @@ def _mol_pairs(case, M):
     return S(out)
 
 
+def _nx_matchers(case):
+    """Node / edge matchers of the effective configuration, built from networkx and plain Python (no synkit)."""
+    from networkx.algorithms.isomorphism import generic_node_match
+    nm = generic_node_match(list(case["node_attrs"]), list(case["node_defaults"]), [lambda x, y: x == y] * len(case["node_attrs"]))
+    names = list(case["edge_attrs"])
+
+    def em(h, p):
+        for k in names:
+            a, b = h.get(k), p.get(k)
+            if a is None and b is None:
+                continue
+            if a is None or b is None or float(a) != float(b):
+                return False
+        return True
+    return nm, em
+
+
+def _nx_graphs(case):
+    g1, g2 = G.to_nx(case["g1"]), G.to_nx(case["g2"])
+    if case.get("prune_wc"):
+        g1 = g1.subgraph([n for n, d in g1.nodes(data=True) if d.get(_ek(case)) != _wc(case)]).copy()
+        g2 = g2.subgraph([n for n, d in g2.nodes(data=True) if d.get(_ek(case)) != _wc(case)]).copy()
+    return g1, g2
+
+
+def _vf2_first_per_host_set(case):
+    """prune_automorphisms keeps, for every host node set, the mapping VF2 enumerates FIRST.  That choice is an INPUT of the
+    model (external library): it is computed here with networkx alone, on graphs built exactly as the adapter builds them
+    (same insertion order, same pruned copies, same k-subset order), not taken from the implementation's answer."""
+    import networkx as nx
+    from networkx.algorithms.isomorphism import GraphMatcher
+    g1, g2 = _nx_graphs(case)
+    pattern, host = (g1, g2) if g1.number_of_nodes() <= g2.number_of_nodes() else (g2, g1)
+    nm, em = _nx_matchers(case)
+    first = {}
+    for k in range(min(pattern.number_of_nodes(), host.number_of_nodes()), 0, -1):
+        for nodes in itertools.combinations(pattern.nodes(), k):
+            gm = GraphMatcher(host, pattern.subgraph(nodes).copy(), node_match=nm, edge_match=em)
+            for iso in gm.subgraph_isomorphisms_iter():
+                hs = frozenset(iso.keys())
+                if hs not in first:
+                    first[hs] = {p: h for h, p in iso.items()}
+    return [sorted([int(p), int(h)] for p, h in m.items()) for m in first.values()]
+
+
 def _obs(M, cnt, variant, case=None):
     if case is not None and case.get("mode") == "mcs_mol":
         return [M._last_pattern_is_G1, M.last_size, cnt, _mol_pairs(case, M)]
-    if case is not None and case.get("prune_auto") and not case.get("mode") and variant == "matcher":
+    if case is not None and case.get("prune_auto") and not case.get("mode") and variant == "matcher" and case.get("in_history"):
         # which representative survives is VF2's choice; compared: orientation, size, subsets tried and the SET of host node sets
         # (one survivor per host set: a duplicate host set would show up twice here and break the comparison with the model)
         return [M._last_pattern_is_G1, M.last_size, cnt, S([sorted(int(v) for v in m.values()) for m in M.get_mappings()])]
@@ -260,6 +305,7 @@ def _sub(case, st):
     for k in ("wildcard", "element_key"):
         if k in cfg:
             d[k] = cfg[k]
+    d["in_history"] = True
     if st.get("call") in ("mcs_mol", "component"):
         d["mode"] = st["call"]
     if st.get("call") == "rc_side" and st.get("component"):
@@ -341,6 +387,7 @@ def _run_history(case):
     for k, st in enumerate(case["steps"]):
         sub = _sub(case, st)
         sub["positional"] = st.get("positional", False)
+        sub["in_history"] = True
         ci = st.get("cfg", 0)
         if ci not in matchers or st.get("fresh"):
             matchers[ci] = _new_matcher(sub)
@@ -480,6 +527,11 @@ def coq_case(case):
     if case["variant"] == "matcher" and case.get("mode") == "mcs_mol":
         return "run_mcs_mol %s %s %s %s %s" % (defs, cbool(case.get("prune_wc", False)), cN(I(_wc(case))), g1, g2)
     if case["variant"] == "matcher":
+        if case.get("prune_auto") and not case.get("mode") and not case.get("in_history"):
+            # VF2's first mapping per host node set, from networkx alone, is a parameter of the model
+            ch = clist([clist([cpair(cN(p), cN(h)) for p, h in m]) for m in _vf2_first_per_host_set(case)])
+            return "run_matcher_auto_with %s %s %s %s %s %s %s" % (defs, cbool(case.get("prune_wc", False)), cN(I(_wc(case))), g1, g2,
+                                                               cbool(case["mcs"]), ch)
         return "%s %s %s %s %s %s %s" % ("run_component" if case.get("mode") == "component" else
                                          "run_matcher_auto" if case.get("prune_auto") else "run_matcher", defs, cbool(case.get("prune_wc", False)), cN(I(_wc(case))), g1, g2,
                                                   cbool(case["mcs"]))
@@ -615,7 +667,7 @@ def oracle(case):
 
 def _msizes(case, obs):
     """Sizes of the returned mappings, from the observable (prune_automorphisms: sizes of the host node sets)."""
-    if case.get("prune_auto") and not case.get("mode") and case["variant"] == "matcher":
+    if case.get("prune_auto") and not case.get("mode") and case["variant"] == "matcher" and case.get("in_history"):
         return [len(h) for h in obs[3]["__set__"]]
     if case.get("mode") == "mcs_mol":
         return [sum(len(p[0]["__set__"]) for p in obs[3]["__set__"])]
